@@ -33,6 +33,11 @@ IDMASK = re.compile(r'with id=\d+>')
 MIXED_KEYS = ['dict', [[['int', 1], ['int', 1]], [['str', 'a'], ['int', 2]], [['none'], ['int', 3]], [['tuple', [['int', 1]]], ['int', 4]],
                        [['bytes', '78'], ['int', 5]], [['float', '2.5'], ['int', 6]], [['bool', False], ['int', 7]], [['fset', []], ['int', 8]]]]
 LONG_KEY_DICT = ['dict', [[['str', 'a fairly long key made of several words'], ['int', 1]], [['bytes', b'another key of some length'.hex()], ['list', [['int', 2]]]]]]
+# keys of one type that are comparable with each other (sorted order is defined) / that are not
+TUPLE_KEYS = ['dict', [[['tuple', [['int', 2], ['str', 'b']]], ['int', 1]], [['tuple', [['int', 1], ['str', 'a']]], ['int', 2]],
+                       [['tuple', [['int', 1], ['str', 'b']]], ['int', 3]], [['tuple', [['int', 0], ['str', 'z']]], ['int', 4]]]]
+CLASHING_TUPLE_KEYS = ['dict', [[['tuple', [['str', 'a'], ['int', 1]]], ['int', 1]], [['tuple', [['int', 1], ['str', 'a']]], ['int', 2]]]]
+FSET_KEYS = ['dict', [[['fset', [['int', 1], ['int', 2]]], ['int', 1]], [['fset', [['int', 1]]], ['int', 2]], [['fset', []], ['int', 3]]]]
 COLD_CORPUS = [
     (['std', 'uuid', '12345678123456781234567812345678'], {}),
     (['std', 'enum', 'Color', 'RED'], {}),
@@ -67,6 +72,8 @@ COLD_CORPUS = [
     (['list', [['pred', 0, 8]]], {}),
     (['dict', [[['str', 'k'], ['cmt', 'the quick brown fox jumps over the lazy dog again and again until the line has to wrap', ['list', [['int', 1], ['int', 2]]]]]]], {'width': 40}),
     (['tcmt', 'first line\n   \nlast line', ['list', [['int', 1]]]], {}),
+    (TUPLE_KEYS, {'sort_dict_keys': True}),
+    (FSET_KEYS, {'sort_dict_keys': True}),
 ]
 
 
@@ -163,8 +170,11 @@ def strategy(tier):
         st.tuples(long_comment, small_list).map(lambda p: ['dict', [[['str', 'k'], ['cmt', p[0], p[1]]]]]),
         st.tuples(long_comment, small_list).map(lambda p: ['list', [['cmt', p[0], p[1]], ['int', 1]]]),
     )
+    tkey = st.tuples(st.one_of(S['r_int'], S['r_str']), st.one_of(S['r_int'], S['r_str'])).map(lambda p: ['tuple', list(p)])
+    tuple_key_dict = st.lists(st.tuples(tkey, S['r_int']).map(list), min_size=2, max_size=4).map(lambda kv: [['dict', kv], {'sort_dict_keys': True}])
     item = st.one_of(
-        same_value_two_widths, same_value_two_widths,
+        same_value_two_widths, same_value_two_widths, tuple_key_dict,
+        st.sampled_from([[TUPLE_KEYS, {'sort_dict_keys': True}], [CLASHING_TUPLE_KEYS, {'sort_dict_keys': True}]]),
         st.one_of(pred_item, pred_item.map(lambda r: ['list', [r]])).map(lambda r: [r, {}]),
         st.tuples(comment_items, st.sampled_from([{'width': 30}, {'width': 40}, {}])).map(list),
         st.tuples(flaky_tree, cfg).map(list),
@@ -303,6 +313,8 @@ INTERFERERS = [
     ('ok', ['list', [['pred', 1, 2]]], {}),
     ('ok', ['tcmt', 'a\n  \nb', ['list', [['int', 1]]]], {}),
     ('ok', ['dict', [[['cmt', 'k\n \n', ['int', 1]], ['int', 2]]]], {}),
+    ('ok', CLASHING_TUPLE_KEYS, {'sort_dict_keys': True}),
+    ('ok', MIXED_KEYS, {'sort_dict_keys': True}),
 ]
 
 
